@@ -619,6 +619,55 @@ fn run_delayed_send(restart: Option<u64>) -> Result<u64, String> {
     Ok(vcheck::fp(&got))
 }
 
+// ---- restart times far from zero ----------------------------------------------------------
+
+struct FarMod {
+    log: Arc<Mutex<Vec<u128>>>,
+    delay_ns: u64,
+    absolute: bool,
+    inc: u32,
+}
+impl Module for FarMod {
+    fn at_sim_start(&mut self, _: usize) {
+        self.inc += 1;
+        self.log.lock().unwrap().push(SimTime::now().as_nanos());
+        if self.inc == 1 {
+            schedule_in(Message::default(), Duration::from_nanos(3));
+        }
+    }
+    fn handle_message(&mut self, _: Message) {
+        let d = Duration::from_nanos(self.delay_ns);
+        if self.absolute {
+            current().shutdow_and_restart_at(SimTime::now() + d);
+        } else {
+            current().shutdow_and_restart_in(d);
+        }
+    }
+}
+/// A simulation that starts beyond 2^24 s of simulated time (where 1 ns is below the resolution
+/// of an f64 second count): the restart happens at exactly request time + delay, to the nanosecond.
+fn run_far_restart(start_ns: u64, delay_ns: u64, absolute: bool) -> Result<u64, String> {
+    let got = quiet_catch(move || {
+        let log: Arc<Mutex<Vec<u128>>> = Default::default();
+        let mut sim = Sim::new(());
+        sim.node("f", FarMod { log: log.clone(), delay_ns, absolute, inc: 0 });
+        let start = SimTime::from_duration(Duration::from_nanos(start_ns));
+        let r = Builder::seeded(1).quiet().cqueue_options(64, Duration::from_secs(100_000)).start_time(start).build(sim.freeze()).run();
+        drop(r);
+        let g = log.lock().unwrap().clone();
+        g
+    })
+    .map_err(|m| format!("panicked: {m}"))?;
+    let exp = vec![u128::from(start_ns), u128::from(start_ns) + 3 + u128::from(delay_ns)];
+    if got != exp {
+        return Err(format!(
+            "simulation starting at {start_ns}ns, restart requested 3ns later with a delay of {delay_ns}ns ({}): start stages ran at {got:?}ns, expected {exp:?}ns",
+            if absolute { "shutdow_and_restart_at" } else { "shutdow_and_restart_in" }
+        ));
+    }
+    Ok(vcheck::fp(&got))
+}
+
 // ---- a module that declares no start stage, restarted -------------------------------------
 
 struct NoStage {
@@ -749,7 +798,7 @@ impl Property for C09 {
     }
     fn rule(&self, tier: Tier) -> String {
         format!(
-            "timelines in half-second units: first shutdown at {{4,6}} x restart delay {{none,0,2,5}} x requested from {{handler, task}} x old task deadline {{2,4,6,7,11,30}} x new task sleep {{1,3}} x second shutdown {{none, +2 no restart, +2 restart 2, +3 restart 0}}              x message route {{to the victim, through a transit gate of the victim}} x {{direct, over a latency channel}} x restart requested by delay, (direct case) by absolute time, or by delay right after a plain shutdown() in the same event (a restart time was given: the module restarts) x every set of up to {} arrival times from {{1,3,4,5,6,8,9,11,13,16}}; plus shutdown requested in each of 3 start stages x restart {{none,0,3}}; plus a module with a processing element that is down while a message arrives (the element must not see it); plus the restart of a module that declares no start stage (never started, not by the restart either); plus send_in issued before the shutdown for instants before, inside and after the down-time (restart none/3/9/30: a send falling due while its sender is down is dropped, the others arrive on time); plus a second shutdown requested by the restarted incarnation inside its restart event (each of its 3 start stages x restart {{none,0,2,5}}: the restart's stages complete, then inert, second reset, third incarnation on time); plus a module whose every incarnation runs one script (N tasks polled at start and after a sleep, N values drained by one task, N tasks spawned by a handler; N in {{1,2,3,59..63,70,128,129,200}}, restart delay {{0,1,1500}} ms): the restarted incarnation's log, relative to its start, must equal the fresh one's;              oracle: expectation computed from the plan: no callback, task step or timer of the victim inside an inert window, messages inside it dropped (also through its transit gate) and never delivered later, reset once per shutdown, start stages once at exactly the restart time, old tasks never resume, task captures dropped, peer receives exactly the echoes;              an event at exactly the shutdown/restart instant is a tie and accepted either way; non-trivial = timeline with a message or deadline strictly inside an inert window",
+            "timelines in half-second units: first shutdown at {{4,6}} x restart delay {{none,0,2,5}} x requested from {{handler, task}} x old task deadline {{2,4,6,7,11,30}} x new task sleep {{1,3}} x second shutdown {{none, +2 no restart, +2 restart 2, +3 restart 0}}              x message route {{to the victim, through a transit gate of the victim}} x {{direct, over a latency channel}} x restart requested by delay, (direct case) by absolute time, or by delay right after a plain shutdown() in the same event (a restart time was given: the module restarts) x every set of up to {} arrival times from {{1,3,4,5,6,8,9,11,13,16}}; plus shutdown requested in each of 3 start stages x restart {{none,0,3}}; plus 24 simulations that start beyond 2^24 s / 2^25 s / just below 2^32 s of simulated time, in which a restart is requested with delays of 1 ns to 2 s (by delay and by absolute time): the restart must happen at exactly request time + delay, to the nanosecond; plus a module with a processing element that is down while a message arrives (the element must not see it); plus the restart of a module that declares no start stage (never started, not by the restart either); plus send_in issued before the shutdown for instants before, inside and after the down-time (restart none/3/9/30: a send falling due while its sender is down is dropped, the others arrive on time); plus a second shutdown requested by the restarted incarnation inside its restart event (each of its 3 start stages x restart {{none,0,2,5}}: the restart's stages complete, then inert, second reset, third incarnation on time); plus a module whose every incarnation runs one script (N tasks polled at start and after a sleep, N values drained by one task, N tasks spawned by a handler; N in {{1,2,3,59..63,70,128,129,200}}, restart delay {{0,1,1500}} ms): the restarted incarnation's log, relative to its start, must equal the fresh one's;              oracle: expectation computed from the plan: no callback, task step or timer of the victim inside an inert window, messages inside it dropped (also through its transit gate) and never delivered later, reset once per shutdown, start stages once at exactly the restart time, old tasks never resume, task captures dropped, peer receives exactly the echoes;              an event at exactly the shutdown/restart instant is a tie and accepted either way; non-trivial = timeline with a message or deadline strictly inside an inert window",
             tier.pick(2, 3)
         )
     }
@@ -760,7 +809,7 @@ impl Property for C09 {
         ]
     }
     fn required_features(&self, _tier: Tier) -> Vec<&'static str> {
-        vec!["same_instant_tie", "message_inside_inert_window", "repeated_cycle", "request_from_task", "transit_gate_route", "latency_channel", "shutdown_in_start_stage", "restarted_vs_fresh_incarnation", "shutdown_requested_inside_the_restart_event", "delayed_send_due_while_sender_is_down", "restart_of_a_module_without_start_stages", "processing_element_of_a_shut_down_module", "plain_shutdown_and_restart_request_in_one_event"]
+        vec!["same_instant_tie", "message_inside_inert_window", "repeated_cycle", "request_from_task", "transit_gate_route", "latency_channel", "shutdown_in_start_stage", "restarted_vs_fresh_incarnation", "shutdown_requested_inside_the_restart_event", "delayed_send_due_while_sender_is_down", "restart_of_a_module_without_start_stages", "processing_element_of_a_shut_down_module", "plain_shutdown_and_restart_request_in_one_event", "restart_beyond_2^24_seconds"]
     }
     fn explore(&self, ctx: &mut Ctx) {
         if ctx.is_first_shard() {
@@ -813,6 +862,18 @@ impl Property for C09 {
             match run_no_stage() {
                 Ok(o) => ctx.outcome(o),
                 Err(d) => ctx.violation("violation", || json!({"probe": "no_stage"}), d),
+            }
+            for start in [20_000_000_123_456_789u64, (1u64 << 25) * 1_000_000_000 + 999_999_999, (1u64 << 32) * 1_000_000_000 - 1_000_000_007] {
+                for delay in [1_500_000_001u64, 1, 999_999_999, 2_000_000_014] {
+                    for absolute in [false, true] {
+                        ctx.out.evaluations += 1;
+                        ctx.hit("restart_beyond_2^24_seconds");
+                        match run_far_restart(start, delay, absolute) {
+                            Ok(o) => ctx.outcome(o),
+                            Err(d) => ctx.violation("violation", || json!({"probe": "far_restart", "start_ns": start, "delay_ns": delay, "absolute": absolute}), d),
+                        }
+                    }
+                }
             }
             for restart in [None, Some(3u64), Some(9), Some(30)] {
                 ctx.out.evaluations += 1;
@@ -910,6 +971,9 @@ impl Property for C09 {
         }
         if case.get("probe").and_then(Value::as_str) == Some("guarded") {
             return run_guarded().map(|_| ());
+        }
+        if case.get("probe").and_then(Value::as_str) == Some("far_restart") {
+            return run_far_restart(case["start_ns"].as_u64().unwrap(), case["delay_ns"].as_u64().unwrap(), case["absolute"].as_bool().unwrap()).map(|_| ());
         }
         if case.get("probe").and_then(Value::as_str) == Some("no_stage") {
             return run_no_stage().map(|_| ());
